@@ -200,8 +200,12 @@ pub fn alphabet(dt: &DataType, n: usize) -> Vec<Val> {
         Decimal256(_, _) => vec![Val::D256(i256::ZERO), Val::D256(i256::from_i128(1)), Val::D256(i256::from_i128(-1)), Val::D256(i256::from_i128(10i128.pow(38) - 1).wrapping_mul(i256::from_i128(10)))],
         Interval(IntervalUnit::DayTime) => vec![Val::Idt(0, 0), Val::Idt(1, -1), Val::Idt(-1, 1), Val::Idt(i32::MAX, i32::MIN)],
         Interval(IntervalUnit::MonthDayNano) => vec![Val::Imdn(0, 0, 0), Val::Imdn(1, -1, 1), Val::Imdn(-1, 0, -1), Val::Imdn(i32::MIN, i32::MAX, i64::MIN)],
-        Utf8 | LargeUtf8 | Utf8View => vec!["", "a", "b", "é", "aa", "twelve bytes", "thirteen byte", "a string that is longer than thirty-two bytes!"].into_iter().map(|s| Val::Str(s.into())).collect(),
-        Binary | LargeBinary | BinaryView => {
+        // view types: an out-of-line value (> 12 bytes) and the longest inline value (exactly 12 bytes) come
+        // first, otherwise the small-column enumerations never build a view array with a data buffer
+        Utf8View => vec!["thirteen byte", "twelve bytes", "a", "é", "", "b", "aa", "a string that is longer than thirty-two bytes!"].into_iter().map(|s| Val::Str(s.into())).collect(),
+        BinaryView => vec![b"thirteen byte".to_vec(), b"twelve bytes".to_vec(), vec![0x61], vec![0xFF], vec![], vec![0x00], vec![1, 2], vec![0xFE; 33]].into_iter().map(Val::Bytes).collect(),
+        Utf8 | LargeUtf8 => vec!["", "a", "b", "é", "aa", "twelve bytes", "thirteen byte", "a string that is longer than thirty-two bytes!"].into_iter().map(|s| Val::Str(s.into())).collect(),
+        Binary | LargeBinary => {
             vec![vec![], vec![0x61], vec![0x00], vec![0xFF], vec![1, 2], b"twelve bytes".to_vec(), b"thirteen byte".to_vec(), vec![0xFE; 33]].into_iter().map(Val::Bytes).collect()
         }
         FixedSizeBinary(0) => vec![Val::Bytes(vec![])],
